@@ -6,7 +6,7 @@
 From Coq Require Import List NArith.
 From RaftLog Require Import Base.Bytes Model.Types Model.Cache Model.Core Model.Recover Model.Run Model.Sys.
 From RaftLog Require Import Spec.Durable.
-From RaftLog Require Proofs.AckFacts Proofs.AckDurable.
+From RaftLog Require Proofs.AckFacts Proofs.AckDurable Proofs.RestartSys.
 Import ListNotations.
 
 (* In EVERY reachable state: if the callback of a flush has reported success, every
@@ -28,6 +28,48 @@ Proof. exact AckFacts.C04_once_in_order. Qed.
 Theorem C04_exactly_once : forall cfg z, zreach_ff cfg z -> worker_idle2 z -> acks_complete z.
 Proof. exact AckFacts.C04_exactly_once. Qed.
 
+(* ---- the same contracts for a store instance started by opening ANY directory that opens
+   (a restart; [zinit cfg d] runs the recovery model open_dir on d), not only an empty one.
+   [dir_wf d]: file ids strictly increasing and synced <= written; [older_synced d]: every file
+   but the newest is completely synced (the new worker tracks only the newest file).  The last
+   hypothesis is necessary: see C04_restart_needs_older_synced. *)
+Theorem C04_ack_after_sync_from : forall cfg d z,
+  RestartSys.dir_wf d -> RestartSys.older_synced d -> RestartSys.zreach_from cfg d z -> acked_durable z.
+Proof. exact RestartSys.C04_ack_after_sync_from. Qed.
+
+Theorem C04_once_in_order_from : forall cfg d z, RestartSys.zreach_from cfg d z -> acks_in_order z.
+Proof. exact RestartSys.C04_once_in_order_from. Qed.
+
+Theorem C04_exactly_once_from : forall cfg d z,
+  RestartSys.zreach_from_ff cfg d z -> worker_idle2 z -> acks_complete z.
+Proof. exact RestartSys.C04_exactly_once_from. Qed.
+
+(* the instance started on the empty directory is the special case d = [] *)
+Theorem C04_from_nil : forall cfg z, RestartSys.zreach_from cfg [] z <-> zreach cfg z.
+Proof. exact RestartSys.zreach_from_nil. Qed.
+
+(* a store opened over an older chunk file whose tail was written by a previous process but
+   never synced (a process crash that the machine survived) acknowledges a flush although
+   that older file is not durable: the new instance never syncs files it did not write.  On a
+   later power loss the image falls into the gap class of finding F3 (C05). *)
+Theorem C04_restart_needs_older_synced :
+  exists z, RestartSys.dir_wf RestartSys.bad_dir /\
+            RestartSys.zreach_from RestartSys.demo_cfg RestartSys.bad_dir z /\ ~ acked_durable z.
+Proof. exact RestartSys.older_synced_needed. Qed.
+
+(* non-vacuity: a two-file directory left by an earlier run (newest file unsynced) opens and
+   the reopened instance reaches a state with an acknowledged flush *)
+Theorem C04_from_nonvacuous :
+  (length RestartSys.demo_dir = 2%nat /\ RestartSys.dir_wf RestartSys.demo_dir /\
+   RestartSys.older_synced RestartSys.demo_dir /\
+   (exists z0, zinit RestartSys.demo_cfg RestartSys.demo_dir = Some z0) /\
+   ~ Forall (fun f => f_synced f = N.of_nat (length (f_data f))) RestartSys.demo_dir) /\
+  exists z, RestartSys.zreach_from RestartSys.demo_cfg RestartSys.demo_dir z /\ In (0%N, true) (z_acks z).
+Proof. split; [exact RestartSys.demo_dir_ok | exact RestartSys.demo_ack_reachable]. Qed.
+
 Print Assumptions C04_ack_after_sync.
 Print Assumptions C04_once_in_order.
 Print Assumptions C04_exactly_once.
+Print Assumptions C04_ack_after_sync_from.
+Print Assumptions C04_exactly_once_from.
+Print Assumptions C04_restart_needs_older_synced.
